@@ -562,7 +562,7 @@ fn history_layer(o: &Opts, model: &mut Model, rep: &mut Report, only: Option<&st
 
 pub fn run(o: &Opts) -> Report {
     let mut rep = Report::new("C04");
-    rep.rule = "three layers, each compared with the Lean machine model (exact) and the contention spec (the property's delay \
+    rep.rule = "the delay of a contended memory cycle at every one of the 69888/70908 frame T-states of both machines and the four port patterns at every T-state (exhaustive); then three layers, each compared with the Lean machine model (exact) and the contention spec (the property's delay \
 table and I/O patterns): single memory-side bus cycles (10 address classes x clocks 1/3/4) and single port cycles (read and \
 write; high byte in every window x bit 0) at every interesting frame T-state (window edges of lines 0,1,100,190,191, all \
 columns of lines 1 and 191, before/after the picture, frame end wrap, 200 random) on the 48K and on the 128K with every bank \
@@ -592,6 +592,38 @@ interesting T-states, the bus-cycle trace taken from the real Z80 on a recording
     }
 
     let mut rng = Rng::new(o.seed);
+    // (0) the whole delay table: one 1-T contended memory cycle at *every* T-state of the frame on both
+    // machines (eight interleaved passes: a cycle lasts at most 7 T, so the clock never overtakes the next start)
+    for m128 in [false, true] {
+        let mut rig = Rig::new(m128, false);
+        for pass in 0..8 {
+            let mut t = pass;
+            while t < frame_len(m128) {
+                check_case(&mut model, &mut rig, &Case { m128, ext: false, latch: 0, t, act: Action::Mreq(0x4000, 1) }, &mut rep, &mut batch);
+                t += 8;
+                if batch.len() >= 4000 {
+                    flush(&mut model, &mut rep, &mut batch);
+                }
+            }
+            flush(&mut model, &mut rep, &mut batch);
+        }
+        rep.count("cases", "delay table, every T-state");
+        // … and the four port patterns at every T-state (a port cycle lasts at most 28 T: 32 passes)
+        for (port, w) in [(0x00FEu16, false), (0x00FF, true), (0x40FE, true), (0x40FF, false)] {
+            for pass in 0..32 {
+                let mut t = pass;
+                while t < frame_len(m128) {
+                    check_case(&mut model, &mut rig, &Case { m128, ext: false, latch: 0, t, act: Action::Port(port, w) }, &mut rep, &mut batch);
+                    t += 32;
+                    if batch.len() >= 4000 {
+                        flush(&mut model, &mut rep, &mut batch);
+                    }
+                }
+                flush(&mut model, &mut rep, &mut batch);
+            }
+        }
+        rep.count("cases", "port patterns, every T-state");
+    }
     for m128 in [false, true] {
         let ts = interesting_ts(m128, o.thorough(), &mut rng);
         let latches: Vec<u8> = if m128 { (0..8).collect() } else { vec![0] };
